@@ -91,7 +91,24 @@ func GenFunc(prog *Prog, fn *ssa.Function, fc *FuncContract) *VC {
 		vc.assume(t)
 		enc.notes["global invariant "+u+" assumed at entry (established by the package initialiser's contract, preserved per the global-frame obligation)"] = true
 	}
+	for i := range fc.MustCalls {
+		name := fmt.Sprintf("calledfn.%d", i)
+		if enc.mapMemSorts == nil {
+			enc.mapMemSorts = map[string]string{}
+		}
+		enc.mapMemSorts[name] = "Bool"
+		st0.mem[name] = "false"
+	}
 	vc.runBody(fr, st0, "true")
+	for _, mc := range fc.MustCalls {
+		if mc.Hits == 0 {
+			vc.errorf("mustcall %s: no call of %s in %s (stale clause)", mc.Callee, mc.Callee, fn.Name())
+		}
+		if mc.Applied == 0 {
+			vc.errorf("mustcall %s of %s: the condition could be evaluated at no return statement (stale clause)", mc.Callee, fn.Name())
+		}
+		mc.Hits, mc.Applied, mc.Skipped = 0, 0, 0
+	}
 	for _, ac := range fc.AtReturns {
 		if ac.Applied == 0 {
 			vc.errorf("atreturn clause %q of %s could be evaluated at no return statement (stale clause)", ac.Text, fn.Name())
